@@ -26,6 +26,7 @@ EXPLANATION = (
     "path there is exactly one decrement of pairs_left (after the pair index was taken), one result store with that index, one pop, "
     "and retirement is tested as pairs_left == 0 after the decrement; a keep-response allocates only below a returning test of "
     "_has_virtual_address; the three wait instructions poll with any / all / single None tests."
+    ' C12.D: the flag get_creator_node_id compares with an integer literal is never supplied as a member of a plain Enum by a producer of a response. C12.Z: no truthiness test on an int-typed value.'
 )
 LEVEL_TEXT = (
     "Static analysis, structure only: necessary shape conditions of the request/response matching for every access site. The "
